@@ -15,6 +15,12 @@ ERRMAP = {"ShapeMismatch": "EShape", "RankMismatch": "ERank", "IncompatibleTypes
           "IndexError": "EPyIndex", "ValueError": "EPyValue"}
 
 EVAL_ID = [0]
+CUR_DTYPE = ['torch.float64']
+def wide_dyadic(rng):
+    """a scalar with more significant bits than float32 holds (exact in float64) when the current dtype is double precision; a short dyadic otherwise"""
+    if CUR_DTYPE[0] in ('torch.float64', 'torch.complex128'):
+        return rng.choice([1 + 2.0 ** -30, 3 - 2.0 ** -35, -(2 + 2.0 ** -28), 2.0 ** -33 - 1])
+    return rng.choice([1 + 2.0 ** -10, 3 - 2.0 ** -8, -(2 + 2.0 ** -6)])
 def _memo_impl(self, dtype):
     """one implementation object per literal and per evaluation: a literal used twice in an expression is the SAME TT object"""
     if getattr(self, "_eval_id", None) != EVAL_ID[0] or getattr(self, "_dtype", None) != dtype:
